@@ -28,7 +28,7 @@ def oracle_scan(casefile, limit=20):
             msg = (spec_c12k if op in ('kcap', 'kprove', 'kverify') else spec_c12).check(op, args, res)
         except Exception as ex:  # malformed line: a broken harness, not a property violation
             msg = "oracle could not parse the case: %r" % (ex,)
-        if msg is not None and len(fails) < limit:
+        if msg is not None and keep_failure(fails, msg):
             short = args if len(args) <= 40 else args[:40] + ["...(%d more)" % (len(args) - 40)]
             fails.append({"line": lineno, "op": op, "args": short, "impl": res[:16], "why": msg})
     return n, fails, dist
